@@ -1,4 +1,4 @@
-CONSTANTS MaxLen = 2
+CONSTANTS MaxLen = 2  MinEdits = 0  MaxEdits = 0
           CoinSet = {"BTC", "LTC", "BCH", "BTG", "GRS"}  SvSet = {"base", "witness_v0"}  IdxSet = {1, 2}
           ScriptIds = {1, 2}  SigSetIds = {1, 2, 3, 4}  BeginSet = {0, 1}  HtBase = {1, 2, 131}
 SPECIFICATION Spec
